@@ -1,4 +1,4 @@
----------------------------- MODULE MCPolicy ----------------------------
+---------------------------- MODULE PolicyMC ----------------------------
 (* Exhaustive small scope for Policy: ALL tiny programs of one pool (<= 2 statements, <= 2
    conditions each, <= 1 modification each, either default) over a fixed set of defined sets.
    One TLC run does two things for every program (= initial state):
